@@ -3,7 +3,7 @@ from harness import objtable
 LEVEL = 'model_checking'
 MANIFEST = {'category': 'model_checking', 'engine': 'symx+z3',
  'technique': 'bounded symbolic execution of the real object-table code (symx proxies + z3): one inductive step, lifetime fields and exact integer time arithmetic',
- 'text': 'Same step as C02 with the lifetime assertions: alive flags, creation/destruction times and lifespan arithmetic exact over symbolic integer times, destroyed_obj only on wl_display.delete_id, implicit destruction of re-used server ids at exactly id >= 0xff000000, no resurrection. Plus every well-formed history of <= 6 (quick) / 8 (thorough) log lines over ids 2, 3 and a server-range id (create as registry or callback, mention, delete_id, re-use) through the real decoder, line loop, manager and display against a reference table: labels, destruction annotations, lifespans, alive flags, and the connection stays one connection. Plus every well-formed history of <= 6 (quick) / 8 (thorough) log lines over ids 2, 3 and a server-range id (create as registry or callback, mention, delete_id, re-use; tagged and untagged) through the real decoder, line loop, manager and display against a reference table: labels, incarnation letters, destruction annotations, lifespans, alive flags, and the connection stays one connection.',
+ 'text': 'Same step as C02 with the lifetime assertions: alive flags, creation/destruction times and lifespan arithmetic exact over symbolic integer times, destroyed_obj only on wl_display.delete_id, implicit destruction of re-used server ids at exactly id >= 0xff000000, no resurrection. Plus every well-formed history of <= 6 (quick) / 8 (thorough) log lines over ids 2, 3 and a server-range id (create as registry or callback, mention, delete_id, re-use; tagged and untagged) through the real decoder, line loop, manager and display against a reference table: labels, incarnation letters, destruction annotations, lifespans, alive flags, and the connection stays one connection.',
  'note': 'Trusted: as C02. Times are integers; the textual rendering of the lifespan is not part of this check.'}
 EXPLANATION = ('Same inductive step as C02, asserting the lifetime half: alive flags, creation/destruction times, lifespan arithmetic (exact, integer '
                'times), destroyed_obj annotation only on wl_display.delete_id, implicit destruction of re-used server-range ids, no resurrection.')
